@@ -209,7 +209,10 @@ prop("C24", level="exploration",
 
 prop("C03", level="exploration",
      stages=[dict(pkg="fullstack", test="TestC03", sub="random", race=True, vary_gomaxprocs=True,
-                  cases=dict(quick=500, thorough=6000), timeout=3600)],
+                  cases=dict(quick=500, thorough=6000), timeout=3600),
+             # request 1 cancelled by its requestor while paused / running; the next request of the scope must be served in full
+             dict(pkg="fullstack", test="TestC03", sub="aftercancel", race=True, vary_gomaxprocs=True,
+                  cases=dict(quick=250, thorough=2500), timeout=3600)],
      technique="runtime monitoring: scripted raw requestor peer -> real responder; every response message recorded on the fabric is compared with reference model 2 (responder's own traversal + send rule written from the statement); store gates make overlapping requests deterministic; Go race detector",
      level_text=("A scripted raw peer sends requests (all combinations of do-not-send-cids, do-not-send-first-blocks incl. 0/1/k/total/total+5/negative, "
                  "dedup-by-key) to a real responder; the concatenated metadata must equal the responder's own traversal (link, present|missing) list, "
